@@ -390,7 +390,7 @@ or >=1 read issued after the first error; distinct by hash of the serialised cas
             seg(),
             fault_strategy(),
             gen::read_plan_with_text_reader(),
-            (proptest::collection::vec(gen::read_size(), 0..6), prop_oneof![1 => Just(0u8), 1 => 0u8..12], prop::bool::weighted(0.15), prop_oneof![4 => Just(0u8), 1 => 1u8..=39], 0u8..3),
+            (proptest::collection::vec(gen::read_size(), 0..6), prop_oneof![1 => Just(0u8), 1 => 0u8..16], prop::bool::weighted(0.15), prop_oneof![4 => Just(0u8), 1 => 1u8..=39], 0u8..3),
         )
             .prop_map(|((payload, framing), hdr_style, seg, fault, reads, (rereads, headers, gzip, prelude, gzip_padding))| Case {
                 payload,
